@@ -336,7 +336,10 @@ def tokenize_deb822_file(sequence: Iterable[Union[str, bytes]]) -> Iterable[Deb8
 
             # If there are multiple whitespace-only lines, we combine them
             # into one token.
-            r = list(text_stream.takewhile(lambda x: _RE_WHITESPACE_LINE.match(x) is not None))
+            # (only newline-terminated lines: an unterminated last line, or lines whose
+            # newline is still to be supplied, must not end up inside the token)
+            r = list(text_stream.takewhile(
+                lambda x: x.endswith("\n") and _RE_WHITESPACE_LINE.match(x) is not None))
             if r:
                 line += "".join(r)
 
